@@ -291,3 +291,100 @@ def result_edges(fn, dest):
                     return f_t, t_t, "is_err"
                 return t_t, f_t, "is_ok"
     return None
+
+
+# ------------------------------------------------------------------ error discipline
+SWALLOWERS = ("ok", "unwrap_or", "unwrap_or_default", "unwrap_or_else", "is_err", "is_ok", "err", "unwrap", "expect")
+
+
+def result_fate(fn, b, t):
+    """What happens to the Result produced by call `t` in block b.
+    'propagated' | 'dropped' | 'swallowed:<how>' | 'inspected'"""
+    dest = t["dest"]
+    if dest[1]:
+        return "propagated"  # written into a field / the return place projection
+    d = dest[0]
+    if d == 0:
+        return "propagated"
+    uses = [(ub, ui, us) for ub, ui, us in fn.uses_of(d) if not (ui == "term" and us["k"] == "drop")]
+    if not uses:
+        return "dropped"
+    fate = None
+    for ub, ui, us in uses:
+        if ui == "term":
+            if us["k"] in ("call", "tailcall"):
+                name = us.get("callee", "").rsplit("::", 1)[-1]
+                if name == "branch" or name == "from_residual":
+                    return "propagated"
+                if name in SWALLOWERS and ("Result" in us.get("callee", "") or "result" in us.get("callee", "")):
+                    fate = fate or f"swallowed:{name}"
+                    continue
+                return "propagated"  # handed to another function (map_err, and_then, a visitor ...)
+            if us["k"] == "switch":
+                return "inspected"
+        else:
+            if us["k"] == "assign":
+                rv = us["rv"]
+                if rv["k"] == "discr":
+                    return "inspected"
+                if rv["k"] in ("use", "agg", "cast"):
+                    return "propagated"  # moved on (into _0, a tuple for a match, ...)
+                if rv["k"] in ("ref", "rawptr"):
+                    # borrowed: look at what the borrow is used for
+                    l2 = us["lhs"][0] if not us["lhs"][1] else None
+                    if l2 is not None:
+                        for vb, vi, vs in fn.uses_of(l2):
+                            if vi == "term" and vs["k"] in ("call", "tailcall"):
+                                name = vs.get("callee", "").rsplit("::", 1)[-1]
+                                if name in SWALLOWERS:
+                                    fate = fate or f"swallowed:{name}"
+                                else:
+                                    return "propagated"
+                    continue
+    return fate or "inspected"
+
+
+def affine_of(fn, o, depth=0):
+    """Evaluate an operand as a*X + b where X is the result of a `len`-like call (the first leaf
+    call found).  Returns (a, b, leaf_call_term) or None."""
+    from .facts import op_int
+    if depth > 30:
+        return None
+    c = op_int(o)
+    if c is not None:
+        return (0, c, None)
+    p = op_place(o)
+    if p is None:
+        return None
+    l = p[0]
+    proj = p[1]
+    d = fn.single_def(l)
+    if d is None:
+        return None
+    if d[0] == "call":
+        return (1, 0, d[2])
+    rv = d[3]["rv"]
+    k = rv["k"]
+    if proj and not (len(proj) == 1 and isinstance(proj[0], list) and proj[0][0] == "." and proj[0][1] == 0):
+        return None
+    if k == "use" or (k == "cast" and rv["ck"] == "IntToInt"):
+        return affine_of(fn, rv["op"], depth + 1)
+    if k == "binop":
+        op = rv["op"].replace("WithOverflow", "").replace("Unchecked", "")
+        x = affine_of(fn, rv["a"], depth + 1)
+        y = affine_of(fn, rv["b"], depth + 1)
+        if x is None or y is None:
+            return None
+        leaf = x[2] or y[2]
+        if op == "Add":
+            return (x[0] + y[0], x[1] + y[1], leaf)
+        if op == "Sub":
+            return (x[0] - y[0], x[1] - y[1], leaf)
+        if op == "Mul":
+            if x[0] == 0:
+                return (y[0] * x[1], y[1] * x[1], leaf)
+            if y[0] == 0:
+                return (x[0] * y[1], x[1] * y[1], leaf)
+            return None
+        return None
+    return None
